@@ -386,6 +386,19 @@ impl Format {
 
         let epoch = match day_of_year {
             Some(days) => {
+                // The day counter starts at 1 and ends with the year: day 0, or day 366 of a common year, is
+                // not a day of that year, and must not silently become a day of a neighboring year.
+                let days_in_year = if crate::epoch::is_leap_year(decomposed[0]) {
+                    366.0
+                } else {
+                    365.0
+                };
+                if !(days >= 1.0 && days < days_in_year + 1.0) {
+                    return Err(HifitimeError::Parse {
+                        source: ParsingError::ValueError,
+                        details: "invalid day of year",
+                    });
+                }
                 // Parse the elapsed time in the given day
                 let elapsed = (decomposed[3] as i64) * Unit::Hour
                     + (decomposed[4] as i64) * Unit::Minute
